@@ -81,9 +81,12 @@ fn finish(b: Buffer, want: &[Word; MAXW], want_len: usize) {
 }
 
 macro_rules! per_cap {
-    ($body:ident; $($name:ident = $cap:expr),* $(,)?) => {$(
+    ($body:ident; $($name:ident = $cap:expr),* $(,)?) => {
+        per_cap!($body, 12; $($name = $cap),*);
+    };
+    ($body:ident, $unw:expr; $($name:ident = $cap:expr),* $(,)?) => {$(
         #[cfg_attr(kani, kani::proof)]
-        #[cfg_attr(kani, kani::unwind(12))]
+        #[cfg_attr(kani, kani::unwind($unw))]
         #[cfg_attr(not(kani), test)]
         fn $name() {
             $body($cap);
@@ -587,7 +590,8 @@ fn body_deref_eq(cap: usize) {
     drop(b);
     finish(a, &ma, la);
 }
-per_cap!(body_deref_eq; vk_int_buffer_deref_eq_c1 = 1, vk_int_buffer_deref_eq_c4 = 4,
+// (slice == is a byte-wise memcmp: up to 48 bytes)
+per_cap!(body_deref_eq, 52; vk_int_buffer_deref_eq_c1 = 1, vk_int_buffer_deref_eq_c4 = 4,
     vk_int_buffer_deref_eq_c6 = 6);
 
 fn body_drop(cap: usize) {
